@@ -124,6 +124,12 @@ class Facts:
                     txt = _json.dumps(f.body["blocks"])
                 if '"fn": "%s"' % h in txt:
                     still.add(h)
+                # a closure that is (also) handed to some other function stays a function of its own
+                if self.fns[h].kind == "Closure" and '{"k": "closure", "path": "%s"}' % h in txt:
+                    for b in f.body["blocks"]:
+                        t = b["term"]
+                        if t["t"] == "call" and '{"k": "closure", "path": "%s"}' % h in _json.dumps(t["f"].get("gat", [])):
+                            still.add(h)
         for h in list(self.inlined_into):
             if h in still or not self.inlined_into[h]:
                 continue
